@@ -680,13 +680,24 @@ async fn load_root<R: AsRef<[u8]>>(
     // Used in step 1.2
     let original_root_version = root.signed.version.get();
 
-    // Used in step 1.9
-    let original_timestamp_keys = root
+    // Used in step 1.9: the root that was trusted when the stored timestamp and snapshot were
+    // written is the one recorded in the datastore at the end of the previous update; the root
+    // shipped with the application only stands in for it while nothing has been recorded yet.
+    let previous_root = match datastore
+        .bytes("root.json")
+        .await?
+        .map(|b| serde_json::from_slice::<Signed<Root>>(&b))
+    {
+        Some(Ok(previous_root)) => Some(previous_root),
+        _ => None,
+    };
+    let reference_root = previous_root.as_ref().unwrap_or(&root);
+    let original_timestamp_keys = reference_root
         .signed
         .keys(RoleType::Timestamp)
         .cloned()
         .collect::<Vec<_>>();
-    let original_snapshot_keys = root
+    let original_snapshot_keys = reference_root
         .signed
         .keys(RoleType::Snapshot)
         .cloned()
@@ -823,6 +834,9 @@ async fn load_root<R: AsRef<[u8]>>(
         let r2 = datastore.remove("snapshot.json").await;
         r1.and(r2)?;
     }
+
+    // Remember the root that the stored timestamp and snapshot are trusted under from now on.
+    datastore.create("root.json", &root).await?;
 
     // 1.10. Set whether consistent snapshots are used as per the trusted root metadata file (see
     //   Section 4.3).
